@@ -584,8 +584,8 @@ func (g *c10Gen) next(store []c10Entry) c10Op {
 		op := c10Op{Kind: "post", Creator: cr, Account: acct, HashParent: f.Address, HashChild: hexsha(fmt.Sprint("child", p.Intn(3))), Contents: fmt.Sprintf("c%d", g.n), Viewers: g.aclString("view", tn, ci), Editors: g.aclString("edit", tn, ci), Tracking: tn, Shape: role}
 		if craft {
 			op.HashParent, op.Account, op.Shape = g.craftHashedPair(f.Address, acct)
-		} else if p.Chance(1, 12) {
-			op.HashChild, op.Shape = PickOne(p, []string{"", "x", "/", f.Address}), "odd-child"
+		} else if p.Chance(1, 8) {
+			op.HashChild, op.Shape = PickOne(p, []string{"", "x", "/", f.Address, " ", "\t", "  ", "\n"}), "odd-child"
 		}
 		if g.kids == nil {
 			g.kids = map[string][2]string{}
